@@ -4,6 +4,7 @@ INVARIANT NoPanic
 INVARIANT Deserializable
 INVARIANT NoneMissed
 INVARIANT NoneSpurious
+INVARIANT NoUnexplainedCode
 INVARIANT AcceptedWhenClean
 INVARIANT RejectionHasCode
 INVARIANT Emit
